@@ -56,7 +56,7 @@ public:
 		std::pair<void*,size_t> b = rq.raw_post_data(); std::string body((char*)b.first,b.second);
 		std::vector<std::string> files;
 		for(auto &f:rq.files()){ std::ostringstream ss; std::string d;
-			if(f->size() % 2 == 0 || AW->save_dir.empty()){ ss << f->data().rdbuf(); d = ss.str(); }
+			if((f->size() % 2 == 0 && f->size() != 0) || AW->save_dir.empty()){ ss << f->data().rdbuf(); d = ss.str(); }   /* empty files (a file input left empty) are kept with save_to() as well */
 			else {   // odd sizes: the application reads the upload with ordinary istream calls until they fail at its end, then keeps it with save_to(); what was saved is what gets reported
 				std::istream &in = f->data(); char b[333]; std::string seen; for(;;){ in.read(b,sizeof(b)); std::streamsize n = in.gcount(); if(n > 0) seen.append(b,(size_t)n); if(!in) break; }
 				std::string path; { simk::TsanIgnore ign; path = AW->save_dir + "/s" + std::to_string(AW->saved++); }
@@ -312,7 +312,7 @@ struct Client : simk::Actor {
 
 // ---------------------------------------------------------------- the engine
 struct E1 : Engine {
-	bool fork_per_run(const J &) override { return true; }   // address-ordered containers in the HTTP watchdog: pristine heap per run
+	bool fork_per_run(const J &) override { return true; } bool always_forks() override { return true; }   // address-ordered containers in the HTTP watchdog: pristine heap per run
 
 	// ---- generation helpers
 	static J gen_segs(simk::Rng &r,size_t len){ J a = J::arr(); unsigned mode = r.below(5);
@@ -332,6 +332,7 @@ struct E1 : Engine {
 		std::string m = methods[r.below(8)]; q["method"] = m; q["script"] = async_mount ? "/a" : "/s";
 		bool filt = async_mount && (m == "POST" || m == "PUT") && (prop == "C12" || prop == "C02") && r.below(3) == 0; if(filt) q["script"] = "/f";
 		std::string path = filt && r.below(2) ? "/echomp" : "/echo"; if(path == "/echomp" && r.below(2)) path += (char)('1' + r.below(r.below(2) ? 3 : 5)); if(filt && r.below(6) == 0) path = r.below(2) ? "/abortraw" : "/aborthdr";   /* the digit selects what the multipart filter does with the parts (reads them / sniffs them) */ int ns = r.below(4); for(int i=0;i<ns;i++){ path += "/"; unsigned x = r.below(8); if(x == 0) path += ""; else if(x == 1) path += r.below(2) ? "%41b%2Fc" : "%4ab%2fc%e2%82%Ac"; else if(x == 2) path += r.below(3) ? "a%20b" : "a%20sb%25n%25s%20s";   /* what a printf-style formatter must never see as its format */ else if(x == 3) path += r.below(3) ? "." : "u{8BIT}"; else path += rnd_token(r,1,8); }
+		if(!filt && r.below(10) == 0) path = std::string(q.gets("script") == "/a" || r.below(2) ? "/f" : "/a") + path;   /* the path begins with the name of ANOTHER configured script (http.script_names /s /a /f): the first name the URL starts with is the script, the rest is path */
 		q["path"] = path; if(filt && r.below(3) == 0) q["xlimit_mode"] = 1 + (int)r.below(4);   /* the filter application sets the limits of this very request: half the body, one byte less, exactly, more than enough */
 		if(r.below(3) == 0){ static const char *hosts[] = {"internal.example","internal.example","internal.example:8080","xinternal.example","internal.example.evil","internal.example:80x","other.example:8080"}; q["host"] = hosts[r.below(7)]; }   // an application is mounted for the host internal.example(:port) only: every request of a kept-alive connection is dispatched by its own Host
 		if(!filt && gen_fwd()) q["host"] = "fwd.example";   /* forwarding.rules: requests for this host are relayed to a second service (SCGI back-end) whatever front-end they arrived on */
@@ -449,6 +450,8 @@ struct E1 : Engine {
 					{ // tiny buffers / channels make every byte a scheduling step: keep such runs small
 						int ob = (int)cfg.geti("output_buffer_size"), ab = (int)cfg.geti("async_output_buffer_size"), cc = (int)c.geti("cap_to_client"); int narrow = std::min(std::min(ob,ab),cc); size_t cap_total = narrow <= 8 ? 3000 : narrow <= 64 ? 20000 : 400000;
 						if(total > cap_total){ std::string sc2; size_t run = 0; size_t p0 = 0; while(p0 < sc.size()){ size_t q0 = sc.find('.',p0); if(q0 == std::string::npos) q0 = sc.size(); std::string t = sc.substr(p0,q0-p0); p0 = q0 + 1; if(!t.empty() && t[0] == 'w'){ size_t n0 = strtoul(t.c_str()+1,nullptr,10); if(run + n0 > cap_total) n0 = run < cap_total ? std::min<size_t>(cap_total-run,n0) % 97 : 3; run += n0; t = "w" + std::to_string(n0); } sc2 += t + "."; } sc = sc2; } }
+					{ int ob = (int)cfg.geti("output_buffer_size"), ab = (int)cfg.geti("async_output_buffer_size"), cc = (int)c.geti("cap_to_client");
+					  if(proto == 2 && !rawmode && std::min(std::min(ob,ab),cc) > 64 && r.below(10) == 0){ sc = std::string(async_mount ? "a1." : "") + "b800000.w" + std::to_string(300000 + r.below(100000)) + ".w" + std::to_string(250000 + r.below(150000)) + "."; } }   /* FastCGI: one flush of more than half a megabyte - a gather write of dozens of records, far more than one writev() takes */
 					bool has_l = false; if(!rawmode && r.below(6) == 0){ size_t tot = script_body(normalise_script(sc),0).size(); sc = "l" + std::to_string(tot) + "." + sc; has_l = true; }   /* the application announces the length itself (response::content_length) */
 					e["kind"] = "writer"; e["script"] = sc; e["salt"] = (long long)r.below(100000); e["gzip"] = (int)(r.below(3) == 0); if(rawmode || has_l) e["gzip"] = 0;   /* an announced length is the length of what the application writes: no content coding on top of it */ if(r.below(10) == 0) e["abort_after"] = (int)r.below(3000); if(!rawmode && r.below(8) == 0){ e["cache"] = "pg" + std::to_string(r.below(2)); std::string sc3; size_t p0 = 0; while(p0 < sc.size()){ size_t q0 = sc.find('.',p0); if(q0 == std::string::npos) q0 = sc.size(); std::string t = sc.substr(p0,q0-p0); p0 = q0 + 1; if(!t.empty() && t[0] != 't' && t[0] != 'm') sc3 += t + "."; } e["script"] = sc3; }
 				} else { e["kind"] = "echo"; e["req"] = gen_req(r,prop,thorough,async_mount,i); if(i == nreq-1 && !bad_conn && !fwd_plan && (prop == "C01" || prop == "C02") && e.get("req").gets("script") != "/f" && r.below(12) == 0){ e["req"]["path"] = "/throw"; } if(i != nreq-1 && e.get("req").gets("host") == "fwd.example") e["req"]["host"] = "sim.example"; }   /* the relay closes the front connection when it is done: a forwarded request is the last one of its connection */
